@@ -400,6 +400,8 @@ func c07Eval(e *c07Env, c c07Case) (c07Expect, c07Obs, *c07Viol, error) {
 		return exp, c07Obs{}, nil, errC07Collision
 	}
 	msg := c07Build(c.Msg)
+	e.viaWorker = c.Worker
+	defer func() { e.viaWorker = false }()
 	_, perr := e.deliver(msg)
 	if errors.Is(perr, errC07Harness) {
 		return exp, c07Obs{}, nil, perr
@@ -489,6 +491,15 @@ func c07Classes(c c07Case, exp c07Expect, o c07Obs) []string {
 	if c.Repeat {
 		cl["delivered-twice"] = true
 	}
+	if c.Worker {
+		cl["via-worker"] = true
+		for i := range exp.Fam {
+			a, b := exp.Fam[i], exp.Fam[1-i]
+			if a.Admit && !b.Admit && (b.FirstFail == "phantom-live" || b.FirstFail == "phantom-blocklisted" || b.FirstFail == "covert-policy") {
+				cl["via-worker:one-half-admitted-other-refused"] = true
+			}
+		}
+	}
 	if c.Msg.RR != nil {
 		cl["registrar-response"] = true
 	}
@@ -550,7 +561,7 @@ func c07Check(t vh.Fataler, rec *vh.Rec, e *c07Env, c c07Case, twins bool) {
 	}
 }
 
-const c07Rule = "C2SWrapper messages drawn field by field (each field present / absent / invalid) x station configuration (enable_v4/v6, enabled transports, phantom blocklist, covert block-/allowlist, share-over-API) x scripted liveness verdict, marshalled and pushed through parseRegMessage+ingestRegistration on an empty registry; compared with the reference admission predicate (usable, announced exactly once, probe only when required, share rules). Non-trivial: an admitted case, for which every single-condition-falsified twin is run as well and must be rejected. Distinct = distinct case description."
+const c07Rule = "C2SWrapper messages drawn field by field (each field present / absent / invalid) x station configuration (enable_v4/v6, enabled transports, phantom blocklist, covert block-/allowlist, share-over-API) x scripted liveness verdict, marshalled and pushed through parseRegMessage+ingestRegistration on an empty registry (in half of the random cases through a real ingest worker, startIngestThread, instead); compared with the reference admission predicate (usable, announced exactly once, probe only when required, share rules). Non-trivial: an admitted case, for which every single-condition-falsified twin is run as well and must be rejected. Distinct = distinct case description."
 
 func c07Require(rec *vh.Rec, grid bool) {
 	rec.Require("admitted:v4", "admitted:v6", "admitted:dual-stack", "domain:well-formed",
@@ -558,6 +569,9 @@ func c07Require(rec *vh.Rec, grid bool) {
 		"rejected:family-v4-not-enabled", "rejected:family-v6-not-enabled", "rejected:registrant-family", "rejected:phantom-blocklisted",
 		"rejected:covert-policy", "rejected:phantom-live", "probe-sent", "probe-skipped:prescanned", "probe-skipped:ipv6",
 		"shared", "detector-source-not-shared")
+	if !grid {
+		rec.Require("via-worker", "via-worker:one-half-admitted-other-refused")
+	}
 	if grid {
 		rec.Require("secret-length:below-minimum", "secret-length:at-or-above-minimum")
 	}
